@@ -1159,6 +1159,59 @@ fn fault_case(idx: Idx, call: &Call, dirty_op: &Op, i: u64, answer: vcore::ctlst
     Some(FaultResult { problems, mutations: used, state: format!("{state:?}") })
 }
 
+/// delete_collection with its `i`-th backend mutation answered by a fault: a delete that
+/// reports success leaves nothing; one that reports an error leaves a retired, inert
+/// handle and can be retried, after which nothing remains and nothing can be recreated.
+fn delete_fault_case(idx: Idx, i: u64, answer: vcore::ctlstore::Answer, dirty: bool) -> Option<FaultResult> {
+    let (live, _model) = setup(idx, dirty);
+    let coll = live.fx.coll.clone();
+    let db = live.fx.db.clone();
+    let base = live.ctl.mutation_attempts();
+    live.ctl.script(base + i, answer);
+    live.ctl.set_task(0);
+    let out = util::block_on(db.delete_collection(COLL_NAME));
+    let used = live.ctl.mutation_attempts() - base;
+    if used <= i {
+        return None;
+    }
+    live.ctl.reset_faults();
+    let mut problems = Vec::new();
+    let label = format!("delete_collection with mutation #{i} answered {answer:?} (returned {})", if out.is_ok() { "Ok".to_string() } else { format!("{:?}", out.as_ref().err().map(|e| classify(e))) });
+    let state = coll.state();
+    if out.is_ok() {
+        let left = prefix_content(&live);
+        if !left.is_empty() {
+            problems.push(("delete-fault|ok-with-residue".into(), format!("{label}: objects remain under the prefix: {:?}", left.keys().collect::<Vec<_>>())));
+        }
+        if db.metadata().collections.contains(COLL_NAME) {
+            problems.push(("delete-fault|ok-still-listed".into(), format!("{label}: the database still lists the collection")));
+        }
+    }
+    if state != CollectionState::Active {
+        retained_battery(&live, &coll, &format!("delete-fault-{}", format!("{state:?}").to_lowercase()), &mut problems);
+    }
+    // a retry (also after a success: idempotent or refused, never harmful) and the final state
+    live.ctl.set_task(61);
+    let retry = util::block_on(db.delete_collection(COLL_NAME));
+    if out.is_err()
+        && state != CollectionState::Active
+        && let Err(e) = &retry
+    {
+        problems.push(("delete-fault|retry-failed".into(), format!("{label}: the fault-free retry of delete_collection failed: {e:?}")));
+    }
+    if retry.is_ok() || out.is_ok() {
+        let left = prefix_content(&live);
+        if !left.is_empty() {
+            problems.push(("delete-fault|residue-after-retry".into(), format!("{label}, then a retry returning {:?}: objects remain: {:?}", retry.as_ref().map(|_| "Ok").map_err(|e| classify(e)), left.keys().collect::<Vec<_>>())));
+        }
+        retained_battery(&live, &coll, "deleted", &mut problems);
+        if !prefix_content(&live).is_empty() {
+            problems.push(("delete-fault|recreated".into(), format!("{label}: the retained handle recreated objects after the delete")));
+        }
+    }
+    Some(FaultResult { problems, mutations: used, state: format!("{state:?}") })
+}
+
 // ---------------------------------------------------------------------------
 // Part D: poison by cancellation while another call is in flight, then reopen
 
@@ -1178,6 +1231,8 @@ fn poison_race_case(idx: Idx, victim: &Op, survivor: &Op, via_close: bool, ch: &
     live.ctl.set_post_gate(true);
     let mut steps = 0usize;
     let mut cancelled = false;
+    // (journal length, handle state, survivor still queued for admission) at the cancellation
+    let mut at_cancel: Option<(usize, CollectionState, bool)> = None;
     let mut deadlock = None;
     {
         let mut sched = Sched::new();
@@ -1212,6 +1267,10 @@ fn poison_race_case(idx: Idx, victim: &Op, survivor: &Op, via_close: bool, ch: &
             if opts[pick] == usize::MAX {
                 sched.cancel(0);
                 cancelled = true;
+                // was the survivor still waiting for admission (no backend call issued, blocked or not started)?
+                let survivor_calls = live.ctl.labels().iter().filter(|l| l.task == 1).count();
+                let queued = survivor_calls == 0 && (sched.state(1) == TaskState::Fresh || (sched.state(1) == TaskState::Suspended && sched.is_blocked(1)));
+                at_cancel = Some((live.ctl.journal_len(), coll.state(), queued));
                 // the caller notices the poisoned handle and reopens through the same database
                 let (d2, r2) = (db.clone(), reopened.clone());
                 sched.spawn("reopen", async move {
@@ -1240,6 +1299,25 @@ fn poison_race_case(idx: Idx, victim: &Op, survivor: &Op, via_close: bool, ch: &
     if !cancelled {
         // the victim completed before any cancellation point was chosen: nothing to check here
         return RaceResult { problems, steps, outcome_key, labels };
+    }
+    // a call that was still queued for admission when the cancellation poisoned the handle
+    // must neither write nor be accepted afterwards
+    if let Some((j_cancel, CollectionState::Poisoned, true)) = at_cancel {
+        for (i, e) in live.ctl.journal().iter().enumerate().skip(j_cancel) {
+            if e.task == 1 && e.mutation.path().starts_with(PREFIX) {
+                problems.push((
+                    format!("poison-race|queued-call-wrote-after-poison|{}", call_kind(&Call::Op(survivor.clone()))),
+                    format!("{survivor:?} was queued for admission when the cancellation of {victim:?} poisoned the handle, yet it wrote `{}` (journal #{i}) afterwards", e.mutation.label()),
+                ));
+                break;
+            }
+        }
+        if outcomes[1].as_ref().map(|o| o.is_ok()).unwrap_or(false) && !matches!(survivor, Op::Get(_)) {
+            problems.push((
+                format!("poison-race|queued-call-accepted-after-poison|{}", call_kind(&Call::Op(survivor.clone()))),
+                format!("{survivor:?} was queued for admission when the cancellation of {victim:?} poisoned the handle, yet it was accepted: {}", outcomes[1].as_ref().unwrap().short()),
+            ));
+        }
     }
     let victim_call = Call::Op(victim.clone());
     let survivor_call = Call::Op(survivor.clone());
@@ -1425,6 +1503,11 @@ fn main() {
             if let Some(res) = fault_case(idx, &call, &dirty, r["i"].as_u64().unwrap(), ans) {
                 problems = res.problems;
             }
+        } else if r["kind"] == "delete-fault" {
+            let ans = if r["answer"] == "ErrAfter" { vcore::ctlstore::Answer::ErrAfter } else { vcore::ctlstore::Answer::ErrBefore };
+            if let Some(res) = delete_fault_case(idx, r["i"].as_u64().unwrap(), ans, r["dirty"].as_bool().unwrap_or(true)) {
+                problems = res.problems;
+            }
         } else if r["kind"] == "cancel-in-close" {
             let victim: Op = serde_json::from_value(r["victim"].clone()).unwrap();
             let closer: Call = serde_json::from_value(r["closer"].clone()).unwrap();
@@ -1598,6 +1681,47 @@ fn main() {
         }
     }
 
+    // ---- Part C2: faults inside delete_collection
+    {
+        let mut items = Vec::new();
+        for dirty in [true, false] {
+            for ans in [vcore::ctlstore::Answer::ErrBefore, vcore::ctlstore::Answer::ErrAfter] {
+                items.push((dirty, ans));
+            }
+        }
+        let results = util::par_map(items, threads, |(dirty, ans)| {
+            let mut out = Vec::new();
+            let mut i = 0u64;
+            while let Some(r) = delete_fault_case(idx, i, ans, dirty) {
+                out.push((i, r));
+                i += 1;
+                if i > 300 {
+                    break;
+                }
+            }
+            (dirty, ans, out)
+        });
+        for (dirty, ans, out) in results {
+            run.add("delete_fault_points", out.len() as u64);
+            run.add("executions", out.len() as u64);
+            run.add("evaluations", out.len() as u64);
+            run.distinct(util::fnv64(format!("delete-fault {dirty} {ans:?}").as_bytes()));
+            for (i, r) in out {
+                cancel_states.insert(format!("delete-fault|{}", r.state));
+                for (sig, msg) in r.problems {
+                    run.violation(Violation {
+                        signature: format!("C06|{sig}"),
+                        summary: msg,
+                        replay: json!({"kind": "delete-fault", "i": i, "dirty": dirty, "answer": format!("{ans:?}")}),
+                    });
+                }
+            }
+        }
+        if run.get("delete_fault_points") < 8 {
+            vcore::report::machinery("delete-fault part enumerated no fault point");
+        }
+    }
+
     // ---- Part D: poison by cancellation with a survivor in flight, then reopen
     let mut outcome_kinds = std::collections::BTreeSet::new();
     {
@@ -1607,6 +1731,12 @@ fn main() {
             (Op::Remove(1), Op::Update(2, 8)),
             (Op::Add(3), Op::Update(2, 8)),
             (Op::Update(1, 8), Op::Add(3)),
+            // survivors that wait for the EXCLUSIVE gate behind the victim's lease
+            (Op::Update(1, 0), Op::Flush),
+            (Op::Add(3), Op::Flush),
+            (Op::Remove(1), Op::Flush),
+            (Op::Update(1, 8), Op::CompactBtree),
+            (Op::Add(3), Op::SaveExt(1)),
         ];
         // each pair twice: plain reopen, and close_collection (fails on the poisoned handle) then reopen
         let pairs: Vec<(Op, Op, bool)> = pairs0.iter().flat_map(|(a, b)| [(a.clone(), b.clone(), false), (a.clone(), b.clone(), true)]).collect();
@@ -2025,7 +2155,7 @@ fn main() {
     run.add("states", (outcome_kinds.len() + cancel_states.len()) as u64);
     run.set("completed", json!(completed));
     run.set("cancel_handle_states", json!(cancel_states));
-    run.rule("cancel-in-close: each of 5 mutating calls in flight against each of close / close_collection / database close, the call's future dropped at any of its suspension points (a deviation), every schedule within the bound: once the cancellation has poisoned the handle nothing is written under the prefix, the handle stays Poisoned (the close must not succeed and turn it Closed), a reopen satisfies the C01/C02 oracles with the cancelled call all-or-nothing; delete-crash: delete_collection on a clean and on a dirty collection with the power failing after each of its backend mutations (and the completed call): a fresh process must reconnect; a collection that is still listed must be whole (C01/C02 oracles); one that is no longer listed must leave a usable name - after a retried delete by name nothing of it resurfaces in a collection created again under that name, which must itself be complete and accept writes; life-race: 2..3 (thorough 4) lifecycle calls on ONE collection name (close_collection, open_or_create with the index callback, delete_collection; 14 ordered sets) spawned together on a collection holding an acknowledged unflushed update, every schedule within the preemption bound: after a successful delete every handle is either retired and inert or an EMPTY collection created after it (listed, complete for a fresh process), nothing else remains under the prefix; without a delete the collection is listed, every Active handle agrees with the acknowledged history and close + reopen satisfies the C01/C02 oracles; fault: close / close_collection / flush with each of 4 unflushed acknowledged ops, every backend mutation of the call answered ErrBefore and ErrAfter: a non-Active handle rejects everything and writes nothing, reopening through the same database satisfies the C01/C02 oracles; poison-race: a call cancelled at any suspension point (a deviation) while another call is in flight, the caller then reopens through the same database - directly, and after a close_collection that fails on the poisoned handle - concurrently with the survivor, all schedules within the bound: the reopened handle satisfies the C01/C02 oracles with the survivor acknowledged and the victim all-or-nothing; cancel: each of 14 mutating APIs (clean and dirty collection) dropped after k polls for every k up to completion; race: each of 6 lifecycle transitions x every set of k operations from a 5-operation alphabet (always a dirty collection so flush/close write), every interleaving with <= B preemptions; oracle on the attributed mutation journal + retained-handle battery (10 mutating APIs, before and after set_read_only(false)) + reopen through the same database handle with the C01/C02 oracles; states = distinct (outcome vector, admission classification) kinds");
+    run.rule("delete-fault: every backend mutation of delete_collection (clean and dirty collection) answered ErrBefore and ErrAfter: a delete that reports success leaves nothing under the prefix and unlists the collection; one that reports an error leaves a retired inert handle and a fault-free retry succeeds, after which nothing remains and the retained handle recreates nothing; cancel-in-close: each of 5 mutating calls in flight against each of close / close_collection / database close, the call's future dropped at any of its suspension points (a deviation), every schedule within the bound: once the cancellation has poisoned the handle nothing is written under the prefix, the handle stays Poisoned (the close must not succeed and turn it Closed), a reopen satisfies the C01/C02 oracles with the cancelled call all-or-nothing; delete-crash: delete_collection on a clean and on a dirty collection with the power failing after each of its backend mutations (and the completed call): a fresh process must reconnect; a collection that is still listed must be whole (C01/C02 oracles); one that is no longer listed must leave a usable name - after a retried delete by name nothing of it resurfaces in a collection created again under that name, which must itself be complete and accept writes; life-race: 2..3 (thorough 4) lifecycle calls on ONE collection name (close_collection, open_or_create with the index callback, delete_collection; 14 ordered sets) spawned together on a collection holding an acknowledged unflushed update, every schedule within the preemption bound: after a successful delete every handle is either retired and inert or an EMPTY collection created after it (listed, complete for a fresh process), nothing else remains under the prefix; without a delete the collection is listed, every Active handle agrees with the acknowledged history and close + reopen satisfies the C01/C02 oracles; fault: close / close_collection / flush with each of 4 unflushed acknowledged ops, every backend mutation of the call answered ErrBefore and ErrAfter: a non-Active handle rejects everything and writes nothing, reopening through the same database satisfies the C01/C02 oracles; poison-race: a call cancelled at any suspension point (a deviation) while another call is in flight, the caller then reopens through the same database - directly, and after a close_collection that fails on the poisoned handle - concurrently with the survivor, all schedules within the bound: the reopened handle satisfies the C01/C02 oracles with the survivor acknowledged and the victim all-or-nothing; cancel: each of 14 mutating APIs (clean and dirty collection) dropped after k polls for every k up to completion; race: each of 6 lifecycle transitions x every set of k operations from a 5-operation alphabet (always a dirty collection so flush/close write), every interleaving with <= B preemptions; oracle on the attributed mutation journal + retained-handle battery (10 mutating APIs, before and after set_read_only(false)) + reopen through the same database handle with the C01/C02 oracles; states = distinct (outcome vector, admission classification) kinds");
     run.assume("await granularity (one scheduling point per backend call and per async-lock wait); operations in one race set touch different documents so that a task blocked before its first backend call is waiting for admission (operation gate), not for a document lock");
     run.finish();
 }
